@@ -81,7 +81,7 @@ let parse_spec s : cspec =
   | [nm; st; ex; rk] ->
     { c_name = n_of_int (int_of_string nm);
       c_stop = (if st = "U" then UntilRunDone else NonBlocking);
-      c_exit = (match ex with "S" -> OnSignal | "F" -> Free | _ -> Never);
+      c_exit = (match ex with "S" -> OnSignal | "F" | "E" -> Free | _ -> Never);
       c_rk = (match rk with "W" -> RWC | "P" -> RPlain | _ -> RNone) }
   | _ -> failwith "spec"
 
@@ -145,6 +145,7 @@ type case = {
   mutable id : string; mutable family : string; mutable pool : cspec list;
   mutable evs : (event * string) list; mutable blocked : string; mutable lives : int list;
   mutable parks : int; mutable outcome : string; mutable notes : string list;
+  mutable cens : (int * int * int * int) list; (* (model events before, kids, workers, other) *)
   mutable helds : (int * int) list (* (number of model events before the observation, sequence number held) *) }
 
 let count f l = List.length (List.filter f l)
@@ -179,9 +180,23 @@ let finish (c : case) =
   (* incremental acceptance (accept0/accept1, sound by CompositeBase.accept0_sound/accept1_sound)
      with a frontier cap and a CPU budget per trace: exceeding either = inconclusive, never an alarm *)
   let f = nat_of_int !fuel in
+  (* C18: at every quiescent snapshot the real census (kids, workers) must be the census of some
+     model state compatible with the trace so far; "other" library-created goroutines must be 0 *)
+  let cens_bad = ref [] in
+  let check_census s d =
+    List.iter (fun (idx, k, w, o) ->
+        if idx = d && s <> [] then begin
+          let okc = o = 0 && List.exists (fun st -> int_of_nat (kid_census st) = k && int_of_nat (worker_census st) = w) s in
+          if not okc then begin
+            let mk = List.fold_left (fun a st -> max a (int_of_nat (kid_census st))) 0 s in
+            let mw = List.fold_left (fun a st -> max a (int_of_nat (worker_census st))) 0 s in
+            cens_bad := (idx, k, w, o, mk, mw) :: !cens_bad
+          end
+        end) c.cens in
   let rec go (s, ok) d = function
-    | [] -> (s, ok, d)
+    | [] -> check_census s d; (s, ok, d)
     | e :: rest ->
+      check_census s d;
       if List.length s > !cap || Sys.time () -. t0 > !budget then ([], false, d)
       else begin
         let (s', ok') = accept1 p f s e in
@@ -219,9 +234,23 @@ let finish (c : case) =
     | Some w -> incr nwit; List.iter (fun l -> bump (label_name l)) w
     | None -> ()
   end;
-  Printf.printf "RESULT %s %s accepted=%s depth=%d/%d at=%s c09=%d c10=%d c11=%d outcome=%s blocked=%s parks=%d shape=%s finals=%d oops=%b ms=%d\n"
+  Printf.printf "RESULT %s %s accepted=%s depth=%d/%d at=%s c09=%d c10=%d c11=%d outcome=%s blocked=%s parks=%d shape=%s finals=%d oops=%b ms=%d census=%s\n"
     c.id c.family acc d n at v09 v10 v11 c.outcome (if c.blocked = "" then "-" else c.blocked) c.parks
     (shape c evs) (List.length finals) oops (int_of_float ((t1 -. t0) *. 1000.))
+    (let ran = List.exists (function EApiRet (OpRun, _, _) -> true | _ -> false) evs in
+     if c.cens = [] then "none"
+     else
+       let bads = List.rev !cens_bad in
+       let final_leak = List.filter (fun (idx, k, w, o, mk, mw) -> ran && idx = n && (k > mk || w > mw || o > 0)) bads in
+       match (if final_leak <> [] then final_leak else bads) with
+       | [] -> Printf.sprintf "ok:%d" (List.length c.cens)
+       | (idx, k, w, o, mk, mw) :: _ ->
+         (* more goroutines than any compatible model state allows = a leak; at the final snapshot
+            after Run() returned this is the property itself *)
+         let leak = k > mk || w > mw || o > 0 in
+         Printf.sprintf "%s@%d:impl=%d/%d/%d,model<=%d/%d"
+           (if leak && ran && idx = n then "leak-after-run" else if leak then "excess" else "mismatch")
+           idx k w o mk mw)
 
 (* ---- check A ---- *)
 let nmem = ref 0 and nmem_changed = ref 0 and nmem_dupdiff = ref 0 and nmis = ref 0
@@ -292,8 +321,12 @@ let () =
        match t with
        | "CASE" :: id :: fam :: "pool" :: _ :: specs ->
          cur := Some { id; family = fam; pool = List.map parse_spec specs; evs = []; blocked = ""; lives = [];
-                       parks = 0; outcome = "?"; notes = []; helds = [] }
+                       parks = 0; outcome = "?"; notes = []; helds = []; cens = [] }
        | "E" :: "Blocked" :: [b] -> (match !cur with Some c -> c.blocked <- b | None -> ())
+       | "E" :: "Census" :: [k; w; o] ->
+         (match !cur with
+          | Some c -> c.cens <- (List.length c.evs, int_of_string k, int_of_string w, int_of_string o) :: c.cens
+          | None -> ())
        | "E" :: "Held" :: [k] ->
          (match !cur with Some c -> c.helds <- (List.length c.evs, int_of_string k) :: c.helds | None -> ())
        | "E" :: "Live" :: _ :: [k] -> (match !cur with Some c -> c.lives <- c.lives @ [int_of_string k] | None -> ())
